@@ -48,3 +48,14 @@ func (c *ChannelBind) refresh(lifetime time.Duration) {
 	c.expiry = time.Now().Add(lifetime)
 	c.lifetimeTimer.Reset(lifetime)
 }
+
+// unlessExpired is the binding for as long as its lifetime has not run out: a
+// binding relays nothing afterwards, also while its removal is waiting for the
+// lock. The caller holds the allocation's channelBindingsLock.
+func (c *ChannelBind) unlessExpired() *ChannelBind {
+	if !time.Now().Before(c.expiry) {
+		return nil
+	}
+
+	return c
+}
